@@ -76,6 +76,10 @@ pub fn generate(prop: &str, rng: &mut Rng, n: usize) -> Vec<Case> {
         "C10" => gen_c10(rng, n, &mut out),
         "C14" => gen_c14(rng, n, &mut out),
         "C08" => gen_c08(rng, n, &mut out),
+        "C02" => gen_sel(rng, n, &mut out, &["c02_direct"]),
+        "C03" => gen_sel(rng, n, &mut out, &["c03_hist"]),
+        "C12" => gen_sel(rng, n, &mut out, &["c12_v"]),
+        "C16" => gen_sel(rng, n, &mut out, &["c16_hist_nan", "c16_v_nan", "c02_direct"]),
         _ => {}
     }
     out
@@ -97,6 +101,7 @@ pub fn run_case(c: &Case) -> Option<String> {
     if k == "c14_polyn" { return run_c14_polyn(&p); }
     if k == "c04_spline" { return run_c04(&p); }
     if k == "c06_linear" { return run_c06(&p); }
+    if k == "c02_direct" || k == "c03_hist" || k == "c12_v" || k == "c16_hist_nan" || k == "c16_v_nan" { return run_sel(k, &p); }
     Some(format!("unknown case kind {}", k))
 }
 
@@ -839,5 +844,107 @@ fn gen_c06(rng: &mut Rng, n: usize, out: &mut Vec<Case>) {
             x = match rng.below(6) { 0 => x, 1 => x + e * (rng.below(5) as f64) * 0.25 * x.abs().max(1.0), 2 => x - rng.unit(), 3 => x + e * 0.5, _ => x + rng.unit() * 3.0 };
         }
         out.push(case("c06_linear", &v));
+    }
+}
+
+// ------------------------------------------------------------------------------------------ C02 / C03 / C12 / C16 (segment selection)
+// params: [N, end_0 .. end_{N-1}, query_0 .. query_{K-1}]; piece i is Poly1([i, 1]) so a returned value identifies the piece AND the argument
+fn sel_oracle(ends: &[f64], x: f64) -> usize {
+    for (i, e) in ends.iter().enumerate() { if *e > x { return i; } }
+    ends.len() - 1
+}
+fn sel_pw(ends: &[f64]) -> Piecewise<Poly1> {
+    Piecewise { segments: ends.iter().enumerate().map(|(i, e)| Segment { end: *e, poly: Poly1([i as f64 * 1024.0, 1.0]) }).collect() }
+}
+fn run_sel(kind: &str, p: &[f64]) -> Option<String> {
+    let n = p[0] as usize;
+    let ends = &p[1..1 + n];
+    let qs = &p[1 + n..];
+    let pw = sel_pw(ends);
+    let want = |x: f64| -> f64 { let i = sel_oracle(ends, x); Poly1([i as f64 * 1024.0, 1.0]).evaluate(x) };
+    match kind {
+        "c02_direct" => {
+            for &x in qs {
+                let got = pw.evaluate(x);
+                if x.is_nan() { continue; }
+                let w = want(x);
+                if got.to_bits() != w.to_bits() { return Some(format!("direct evaluation at x={:e} returned {:e}, the selection rule (piece {}) gives {:e}; ends={:?}", x, got, sel_oracle(ends, x), w, ends)); }
+            }
+            None
+        }
+        "c03_hist" | "c16_hist_nan" => {
+            let mut ev = PiecewiseEvaluator::new(&pw.segments);
+            for (k, &x) in qs.iter().enumerate() {
+                let got = ev.evaluate(x);
+                if x.is_nan() { continue; }
+                let w = pw.evaluate(x);
+                if got.to_bits() != w.to_bits() { return Some(format!("evaluator query #{} x={:e} returned {:e}, direct evaluation returns {:e} (piece {}); ends={:?} history={:?}", k, x, got, w, sel_oracle(ends, x), ends, &qs[..=k])); }
+            }
+            None
+        }
+        "c12_v" | "c16_v_nan" => {
+            // non-NaN arguments: each one is evaluated with the piece direct evaluation selects for the running maximum
+            let got: Vec<f64> = pw.evaluate_v(qs.iter().copied()).collect();
+            if got.len() != qs.len() { return Some(format!("evaluate_v yielded {} values for {} arguments", got.len(), qs.len())); }
+            if kind == "c16_v_nan" { return None; }
+            let mut runmax = f64::NEG_INFINITY;
+            for (k, &x) in qs.iter().enumerate() {
+                if x > runmax { runmax = x; }
+                let i = sel_oracle(ends, runmax);
+                let w = Poly1([i as f64 * 1024.0, 1.0]).evaluate(x);
+                if got[k].to_bits() != w.to_bits() { return Some(format!("evaluate_v argument #{} x={:e} gave {:e}; piece {} (selected for the running maximum {:e}) gives {:e}; ends={:?} args={:?}", k, x, got[k], i, runmax, w, ends, &qs[..=k])); }
+            }
+            None
+        }
+        _ => Some("unknown selection case".to_string()),
+    }
+}
+
+fn gen_sel(rng: &mut Rng, n: usize, out: &mut Vec<Case>, kinds: &[&str]) {
+    let n = n.min(3000);
+    let mut push = |ends: &[f64], qs: &[f64], out: &mut Vec<Case>, kind: &str| {
+        let mut v = vec![ends.len() as f64];
+        v.extend_from_slice(ends);
+        v.extend_from_slice(qs);
+        out.push(case(kind, &v));
+    };
+    let mut round = 0usize;
+    while out.len() < n {
+        let kind = kinds[round % kinds.len()];
+        round += 1;
+        let nan_ok = kind.starts_with("c16");
+        // sizes: small ones often, up to 40 segments; grid ends produce duplicates
+        let nseg = match rng.below(4) { 0 => 1 + rng.below(3) as usize, 1 => 1 + rng.below(8) as usize, 2 => 8 + rng.below(10) as usize, _ => 1 + rng.below(40) as usize };
+        let style = rng.below(4);
+        let mut ends: Vec<f64> = (0..nseg).map(|_| match style {
+            0 => (rng.below(9) as f64) - 4.0,
+            1 => (rng.below(2 * nseg as u64 + 1) as f64) * 0.5 - nseg as f64 * 0.5,
+            2 => rng.float(),
+            _ => (rng.below(5) as f64) * 1e300 - 2e300,
+        }).collect();
+        ends.sort_by(|a, b| a.partial_cmp(b).unwrap());
+        if rng.below(8) == 0 { let l = ends.len(); ends[l - 1] = f64::INFINITY; }
+        if rng.below(16) == 0 { ends[0] = f64::NEG_INFINITY; }
+        let k = 1 + rng.below(14) as usize;
+        let mut qs: Vec<f64> = Vec::new();
+        for _ in 0..k {
+            let e = ends[rng.below(nseg as u64) as usize];
+            let q = match rng.below(10) {
+                0 => e,
+                1 => f64::from_bits(e.to_bits().wrapping_add(1)),
+                2 => f64::from_bits(e.to_bits().wrapping_sub(1)),
+                3 => f64::INFINITY,
+                4 => f64::NEG_INFINITY,
+                5 => ends[0] - 1.0,
+                6 => ends[nseg - 1] + 1.0,
+                7 => e + (rng.unit() - 0.5),
+                8 => if nan_ok { f64::NAN } else { -e },
+                _ => rng.float(),
+            };
+            let q = if q.is_nan() && !nan_ok { 0.0 } else { q };
+            qs.push(q);
+        }
+        if kind == "c12_v" && rng.below(3) != 0 { qs.sort_by(|a, b| a.partial_cmp(b).unwrap()); }
+        push(&ends, &qs, out, kind);
     }
 }
